@@ -19,7 +19,7 @@ import re
 import z3
 
 from mir import parse_body, split_functions, split_top, Unsupported, _matching
-from symex import Executor, State, Outcome, I, B, UNIT
+from symex import Executor, State, Outcome, I, B, UNIT, InfeasiblePath
 from workerloop import WorkerExecutor, loop_heads, _succ, _check
 
 EVAL_EVENTS = ("visit", "condition", "actions", "properties_iter", "push_job", "within_boundary")
@@ -64,6 +64,13 @@ class BlockExecutor(WorkerExecutor):
         c = st.locals[place.local]
         for p in place.proj:
             v = st.heap[c]
+            if v[0] == "variant":
+                if p[0] == "downcast":
+                    if p[1] != v[1]:
+                        raise InfeasiblePath()
+                    c = st.alloc(("struct", v[2]))
+                    continue
+                raise Unsupported(f"projection {p} of an enum variant value at {place}")
             if v[0] in ("opaque", "uninit") or (p[0] == "downcast" and not (v[0] == "opt" and p[1] == "Some")) or (p[0] == "deref" and v[0] not in ("ref", "arc", "box", "guard")) \
                     or (p[0] == "field" and v[0] not in ("struct", "opt_payload", "uninit")):
                 key = ("proj", c, p)
@@ -99,9 +106,15 @@ class BlockExecutor(WorkerExecutor):
         return ("opaque", "rvalue")
 
     def eval_rv(self, st, rv):
+        if rv[0] == "agg" and isinstance(rv[1], str) and rv[1].startswith("variant:"):
+            return ("variant", rv[1][len("variant:"):], tuple((i, st.alloc(self.read(st, o))) for i, o in enumerate(rv[2])))
         if rv[0] == "discr":
             c = self.cell_of(st, rv[1])
             v = st.heap[c]
+            if v[0] == "variant":
+                # the index of a variant is not in the MIR text: one symbolic constant per variant name;
+                # arms whose downcast names another variant are pruned in cell_of
+                return I(z3.Int(f"variant_index!{v[1]}"))
             if v[0] != "opt":
                 key = ("discr", c)
                 if key not in st.handles:
@@ -150,7 +163,7 @@ class BlockExecutor(WorkerExecutor):
                 st.heap[c] = ("deque", x)
 
     def drop_value(self, st, v, body, t):
-        if v[0] in ("struct", "int", "bool", "ref"):
+        if v[0] in ("struct", "int", "bool", "ref", "variant"):
             return None
         return super().drop_value(st, v, body, t)
 
